@@ -473,7 +473,9 @@ class PfWorld:
                                         'HEIGHTS_FROM_REGIONS': 'no'}
         if mode == 'layout':
             pp['RUN_LAYOUT_PARSER'] = 'yes'
-            pp['RUN_LINE_CROPPER'] = 'yes' if 'lines' in plan['outputs'] else 'no'
+            pp['RUN_LINE_CROPPER'] = 'yes' if ('lines' in plan['outputs'] or plan.get('layout_ocr')) else 'no'
+            if plan.get('layout_ocr'):
+                pp['RUN_OCR'] = 'yes'        # detected lines are cropped and read, so that geometry shows up as text
             if not plan.get('regions_from_xml'):
                 extra['LAYOUT_PARSER_1'] = {'METHOD': 'REGION_WHOLE_PAGE'}
             extra['LAYOUT_PARSER_2'] = {'METHOD': 'LINES_SIMPLE_THRESHOLD', 'ADAPTIVE_THRESHOLD': '21', 'BLOCK_SIZE': '51',
@@ -489,7 +491,7 @@ class PfWorld:
         if not run_decoder:
             dcfg.setdefault('type', 'GREEDY')
         self.ini = write_decoder_config(cdir, dcfg, run_decoder=run_decoder, extra_sections=extra)
-        if mode == 'ocr':
+        if mode == 'ocr' or plan.get('layout_ocr'):
             os.remove(os.path.join(cdir, 'ocr.json'))
             stubocr.ensure_engine_files(cdir, self.chars)
         self.in_img = self.in_xml = self.in_logits = None
@@ -553,7 +555,7 @@ class PfWorld:
                                **({'hsplit': ln['hsplit']} if ln.get('hsplit') else {}))
                           for j, ln in enumerate(p['lines'])],
                 'regions': p.get('regions', 1), 'curved': p.get('curved', False), 'canvas': p.get('canvas'),
-                'tilt': p.get('tilt', 0)}
+                'tilt': p.get('tilt', 0), 'ink_colours': self.plan['cfg']['nchars'] if self.plan.get('layout_ocr') else 0}
 
     def logit_layout(self, p):
         """Layout with generated logits whose line geometry matches the painted image."""
